@@ -189,7 +189,7 @@ func (mi *muxInstance) getGlobalFilter() (gf *globalfilter.GlobalFilter)
 
 func (mi *muxInstance) serveHTTP(stdw http.ResponseWriter, stdr *http.Request)
   flag allocates
-  flag frame=unchecked
+  modifies allof("context.Context.activeNs"), allof("elem<string>"), allof("ghost:.arcAdded"), allof("ghost:.arcTyp"), allof("ghost:.arcVal"), allof("ghost:.limN"), allof("ghost:.limUnder"), allof("ghost:.rdRem"), allof("ghost:.wroteStatus"), allof("ghost:github.com/megaease/easegress/pkg/context.handledBy"), allof("ghost:github.com/megaease/easegress/pkg/context.handledCount"), allof("ghost:github.com/megaease/easegress/pkg/context.outResp"), allof("ghost:github.com/megaease/easegress/pkg/context.outRespTyp"), allof("ghost:github.com/megaease/easegress/pkg/object/httpserver.gBackend"), allof("ghost:github.com/megaease/easegress/pkg/object/httpserver.gBackendOK"), allof("ghost:github.com/megaease/easegress/pkg/object/httpserver.gFetchErr#typ"), allof("ghost:github.com/megaease/easegress/pkg/object/httpserver.gFetchErr#val"), allof("ghost:github.com/megaease/easegress/pkg/object/httpserver.gFetchLimit"), allof("ghost:github.com/megaease/easegress/pkg/object/httpserver.gFetched"), allof("ghost:github.com/megaease/easegress/pkg/object/httpserver.gPathAtFetch"), allof("ghost:github.com/megaease/easegress/pkg/object/httpserver.gRewritten"), allof("ghost:github.com/megaease/easegress/pkg/object/httpserver.gRouteCode"), allof("ghost:github.com/megaease/easegress/pkg/object/httpserver.gRoutePath"), allof("ghost:github.com/megaease/easegress/pkg/object/httpserver.gViaGlobalFilter"), allof("ghost:github.com/megaease/easegress/pkg/object/httpserver.gWrote"), allof("ghost:github.com/megaease/easegress/pkg/object/httpserver.gWroteBody"), allof("ghost:github.com/megaease/easegress/pkg/object/httpserver.gWroteHdr"), allof("ghost:github.com/megaease/easegress/pkg/object/httpserver.wi"), allof("ghost:github.com/megaease/easegress/pkg/object/httpserver.wj"), allof("map<string,[]string>#dom"), allof("map<string,[]string>#val#arr"), allof("map<string,[]string>#val#cap"), allof("map<string,[]string>#val#len"), allof("net/http.Request.Body#typ"), allof("net/http.Request.Body#val"), allof("net/url.URL.Path"), allof("ghost:github.com/megaease/easegress/pkg/filters.runFilter"), allof("ghost:github.com/megaease/easegress/pkg/filters.runLen"), allof("ghost:github.com/megaease/easegress/pkg/filters.runNS"), allof("ghost:github.com/megaease/easegress/pkg/filters.runResult"), allof("ghost:github.com/megaease/easegress/pkg/object/globalfilter.gfAfter"), allof("ghost:github.com/megaease/easegress/pkg/object/globalfilter.gfBefore"), allof("ghost:github.com/megaease/easegress/pkg/object/globalfilter.gfMain"), allof("ghost:github.com/megaease/easegress/pkg/object/globalfilter.gfRan"), allof("ghost:github.com/megaease/easegress/pkg/object/pipeline.endB"), allof("ghost:github.com/megaease/easegress/pkg/object/pipeline.endM"), allof("ghost:github.com/megaease/easegress/pkg/object/pipeline.runIdx"), allof("ghost:github.com/megaease/easegress/pkg/object/pipeline.segB"), allof("ghost:github.com/megaease/easegress/pkg/object/pipeline.segM")
   requires wfMux(mi) && routeConstants() && cacheInv(mi) && chainsOK(mi)
   requires mi.tracer != nil && mi.superSpec != nil && mi.superSpec.meta != nil && mi.spec != nil && mi.topN != nil && mi.muxMapper != nil
   requires mi.httpStat != nil && ifaceVal(stdw) != 0
@@ -220,7 +220,6 @@ func (mi *muxInstance) serveHTTP(stdw http.ResponseWriter, stdr *http.Request)
   closure[1] ()
     flag use=contract
     flag allocates
-    flag frame=unchecked
     requires ctx != nil && stdw != nil && ifaceVal(stdw) != 0 && mi != nil && mi.superSpec != nil && mi.superSpec.meta != nil && mi.httpStat != nil && topN != nil && body != nil && span != nil && req != nil && stdr != nil
     requires http-responses-are-complete: outResp != 0 && outRespTyp == typeTag("*httpprot.Response") ==> allocated(ptr(outResp, "*httpprot.Response")) && ptr(outResp, "*httpprot.Response").Response != nil && ptr(outResp, "*httpprot.Response").Response.Header != nil
     assume the-writers-header-map-is-its-own: forall x *http.Response :: ref(x.Header) != rwHdr(ifaceVal(stdw))
@@ -320,12 +319,11 @@ func (r *runtime) needRestartServer(nextSpec *Spec) (yes bool)
 
 func (r *runtime) reload(nextSuperSpec *supervisor.Spec, muxMapper context.MuxMapper)
   flag allocates
-  flag frame=unchecked
   requires r != nil && r.mux != nil && nextSuperSpec != nil
   requires spec-of-this-kind: typeIs(nextSuperSpec.objectSpec, "*Spec") && specWF(ptr(ifaceVal(nextSuperSpec.objectSpec), "*Spec"))
   requires current-instance: typeIs(r.mux.inst.v, "*muxInstance") && ifaceVal(r.mux.inst.v) != 0 && ptr(ifaceVal(r.mux.inst.v), "*muxInstance").spec != nil
   requires a-listener-has-its-semaphore: r.limitListener != nil ==> r.limitListener.sem != nil && r.limitListener.sem.sem != nil
-  modifies gCapSet, gCapValue, gCapListener
+  modifies gCapSet, gCapValue, gCapListener, allof("ghost:github.com/megaease/easegress/pkg/util/sem.gNewCap"), allof("ghost:github.com/megaease/easegress/pkg/util/sem.gOldCap"), allof("object/httpserver.Header.headerRE"), allof("object/httpserver.mux.inst.v#val"), allof("object/httpserver.runtime.limitListener"), allof("object/httpserver.runtime.server"), allof("object/httpserver.runtime.server3"), allof("object/httpserver.runtime.spec"), allof("object/httpserver.runtime.superSpec"), allof("util/sem.Semaphore.realCapacity")
   ensures the-listener-that-is-accepting-gets-the-new-cap: ifaceVal(nextSuperSpec.objectSpec) != 0 && old(r.limitListener) != nil ==> gCapSet && gCapListener == old(ref(r.limitListener)) && gCapValue == ptr(ifaceVal(nextSuperSpec.objectSpec), "*Spec").MaxConnections
   ensures the-spec-in-force-is-the-new-one: ifaceVal(nextSuperSpec.objectSpec) != 0 ==> r.spec == ptr(ifaceVal(nextSuperSpec.objectSpec), "*Spec") && r.superSpec == nextSuperSpec
   ghost at entry: gCapSet := false
